@@ -9,7 +9,7 @@ NOTE = ("TLC 1.8 and the TLA+ specs under /verif/spec are trusted; bounds as sta
         "applications through the public extension API only; Tier-I (introspection) mismatches are reported as DRIFT, never as violations")
 CLAIMS = {
     "C01": ("model_checking", "RuleSpace.tla enumerates the call configurations (family x primitive x call form x shapes x axes x keepdims x argnum x "
-            "scalar form); every configuration is called on the real code, the full reverse-mode matrix compared with the Jacobian of plain NumPy, and "
+            "scalar form; 21 families incl. the SciPy wrappers autograd.scipy.special / .stats / .linalg / .signal); every configuration is called on the real code, the full reverse-mode matrix compared with the Jacobian of plain NumPy, and "
             "TLC judges every observation against Contract!RevExact. Numeric agreement is a ~5e-7 projection, not a proof of the formulas", "4 C01"),
     "C02": ("model_checking", "same configuration space; full forward-mode matrix and tangent structure judged by TLC against Contract!FwdExact", "4 C02"),
     "C04": ("model_checking", "same configuration space; oracle-free: reverse and forward matrices must agree to 1e-11 on the whole basis and both be "
@@ -47,7 +47,7 @@ CLAIMS = {
     "C15": ("exploration", "Dispatch.tla models the decision table of the primitive wrapper (NoSilentDrop); the whole exported namespace (autograd.numpy, "
             ".linalg, .fft, .random, ArrayBox attributes) is swept with call templates NumPy accepts, each positional float argument (and all of them at "
             "once, and with special values in the other arguments) is differentiated in both modes; TLC judges every recorded row (varies & zero => "
-            "violation, gross disagreement => violation) and 28 guard cases that must raise (incl. Python's conversion protocols); loud failures caught and "
+            "violation, gross disagreement => violation; the SciPy-compatible namespaces likewise) and 28 guard cases that must raise (incl. Python's conversion protocols); loud failures caught and "
             "retried at every nesting depth (AGM fault family) must leave exact derivatives", "4 C15"),
     "C16": ("model_checking", "Operators.tla: every differential operator defined as a contraction of one symbolic integer Jacobian/Hessian; operator "
             "identities model-checked; 29 operators (incl. operators of operators through secondary outputs) x shapes x argument layouts replayed on the real package, shape and entries compared exactly by TLC", "4 C16"),
